@@ -3,7 +3,9 @@
 package rest
 
 import (
+	"github.com/inbucket/inbucket/v3/pkg/extension/event"
 	"github.com/inbucket/inbucket/v3/pkg/msghub"
+	"github.com/inbucket/inbucket/v3/pkg/rest/model"
 )
 
 // VerifEvent is what a verification harness sees on a socket listener's queue.
@@ -28,8 +30,10 @@ type VerifListener interface {
 type verifV1 struct{ *msgListenerV1 }
 
 func (l verifV1) Recv() (VerifEvent, bool) {
-	msg, ok := <-l.c
-	if !ok {
+	var msg event.MessageMetadata
+	select {
+	case msg = <-l.c:
+	case <-l.done:
 		return VerifEvent{}, false
 	}
 	return VerifEvent{Kind: "stored", Mailbox: msg.Mailbox, ID: msg.ID}, true
@@ -40,8 +44,10 @@ func (l verifV1) Pending() int { return len(l.c) }
 type verifV2 struct{ *msgListenerV2 }
 
 func (l verifV2) Recv() (VerifEvent, bool) {
-	ev, ok := <-l.c
-	if !ok {
+	var ev *model.JSONMonitorEventV2
+	select {
+	case ev = <-l.c:
+	case <-l.done:
 		return VerifEvent{}, false
 	}
 	if ev.Variant == "message-deleted" {
